@@ -468,4 +468,129 @@ theorem mkdirAll_plain_dir (c : Cfg) (fs fsA : FS) (p : Text) (perm : Nat) (hi :
           exact mkdirAllLoop_lockstep c _ _ f (by intro g hg; cases hg; exact getNodeD_count f maxLinks)
             (parts p) fs { ino := 0 } [] 0 i hi hi.root hm hplain
 
+/-- the names `ReadDir` lists depend on the shape only -/
+theorem readDir_names_shape (c : Cfg) {a b : FS} (h : ShapeEq a b) (p : Text) (ea eb : List StatInfo)
+    (ha : (step c a (.readDir p)).2 = .ok (.entries ea)) (hb : (step c b (.readDir p)).2 = .ok (.entries eb)) :
+    eb.map (·.name) = ea.map (·.name) := by
+  simp only [step, getNode_shape h c p] at ha hb
+  cases hg : getNode c a p with
+  | error e => simp [hg] at ha
+  | ok i =>
+    simp only [hg, h.dir i, h.children i] at ha hb
+    by_cases hd : (a.node i).dir = true
+    · simp only [hd, Bool.not_true, Bool.false_eq_true, if_false, Out.ok.injEq, Val.entries.injEq] at ha hb
+      rw [← ha, ← hb]
+      simp [statOf]
+    · simp [hd] at ha
+
+/-- the fold of `walkDir` over a directory's entries: a successful fold has visited every entry -/
+theorem walkFold_children (c : Cfg) (cb : FS → Text → FS × Option Err) (fuel : Nat) (name : Text)
+    (hchild : ∀ (f f' : FS) (nm : Text) (d : Bool) (v : List Text),
+      walkDir c cb fuel f nm d = (f', none, v) → nm ∈ v) :
+    ∀ (l : List StatInfo) (f0 : FS) (v0 : List Text) (f' : FS) (v' : List Text),
+      l.foldl (fun (acc : FS × Option Err × List Text) e =>
+        match acc with
+        | (_, some _, _) => acc
+        | (fs', none, vs) =>
+          let r := walkDir c cb fuel fs' (join2 name e.name) e.isDir
+          (r.1, r.2.1, vs ++ r.2.2)) (f0, none, v0) = (f', none, v') →
+      (∀ p ∈ v0, p ∈ v') ∧ ∀ e ∈ l, join2 name e.name ∈ v' := by
+  intro l
+  induction l with
+  | nil =>
+    intro f0 v0 f' v' he
+    simp only [List.foldl, Prod.mk.injEq, true_and] at he
+    obtain ⟨_, rfl⟩ := he
+    exact ⟨fun p hp => hp, fun e he => by cases he⟩
+  | cons e rest ihl =>
+    intro f0 v0 f' v' he
+    simp only [List.foldl] at he
+    cases hw : walkDir c cb fuel f0 (join2 name e.name) e.isDir with
+    | mk f1 r1 =>
+      obtain ⟨e1, v1⟩ := r1
+      simp only [hw] at he
+      cases e1 with
+      | some er =>
+        exfalso
+        have stuck : ∀ (l : List StatInfo) (x : FS) (y : List Text),
+            (l.foldl (fun (acc : FS × Option Err × List Text) e =>
+              match acc with
+              | (_, some _, _) => acc
+              | (fs', none, vs) =>
+                let r := walkDir c cb fuel fs' (join2 name e.name) e.isDir
+                (r.1, r.2.1, vs ++ r.2.2)) (x, some er, y)).2.1 = some er := by
+          intro l
+          induction l with
+          | nil => intro x y; rfl
+          | cons _ _ ih2 => intro x y; simp only [List.foldl]; exact ih2 x y
+        have := stuck rest f1 (v0 ++ v1)
+        rw [he] at this
+        cases this
+      | none =>
+        obtain ⟨h1, h2⟩ := ihl f1 (v0 ++ v1) f' v' he
+        have hin := hchild f0 f1 _ _ v1 hw
+        refine ⟨fun p hp => h1 p (List.mem_append_left _ hp), ?_⟩
+        intro e' he'
+        rcases List.mem_cons.mp he' with rfl | hr
+        · exact h1 _ (List.mem_append_right _ hin)
+        · exact h2 e' hr
+
+/-- **the walk is complete, level by level**: a successful call for a directory visits the
+directory itself and every entry `ReadDir` lists for it in the final state -/
+theorem walkDir_children (c : Cfg) (cb : FS → Text → FS × Option Err) (hcb : ∀ fs p, ShapeEq fs (cb fs p).1) :
+    ∀ (fuel : Nat) (fs fs' : FS) (name : Text) (isDir : Bool) (vs : List Text),
+      walkDir c cb fuel fs name isDir = (fs', none, vs) →
+      name ∈ vs ∧ (isDir = true → ∀ es, (step c fs' (.readDir name)).2 = .ok (.entries es) →
+        ∀ e ∈ es, join2 name e.name ∈ vs) := by
+  intro fuel
+  induction fuel with
+  | zero => intro fs fs' name isDir vs h; simp [walkDir] at h
+  | succ fuel ih =>
+    intro fs fs' name isDir vs h
+    have hsh : ShapeEq fs (walkDir c cb (fuel + 1) fs name isDir).1 :=
+      walkDir_keeps c cb (ShapeEq fs) (fun f p hf => ShapeEq.trans hf (hcb f p)) _ fs name isDir (ShapeEq.refl fs)
+    unfold walkDir at h
+    cases hc : cb fs name with
+    | mk fs1 r =>
+      cases r with
+      | some e => simp [hc] at h
+      | none =>
+        simp only [hc] at h
+        by_cases hd : isDir = true
+        · simp only [hd, Bool.not_true, Bool.false_eq_true, if_false] at h
+          cases hrd : (step c fs1 (.readDir name)).2 with
+          | ok v =>
+            cases v with
+            | entries es1 =>
+              simp only [hrd] at h
+              obtain ⟨h1, h2⟩ := walkFold_children c cb fuel name
+                (fun f f' nm d v hw => (ih f f' nm d v hw).1) es1 fs1 [name] fs' vs h
+              refine ⟨h1 name (by simp), fun _ es hes e he => ?_⟩
+              -- same names as at visit time
+              have s1 : ShapeEq fs fs1 := by have := hcb fs name; rw [hc] at this; exact this
+              have s2 : ShapeEq fs fs' := by rw [show fs' = (walkDir c cb (fuel + 1) fs name isDir).1 from by
+                unfold walkDir; simp only [hc, hd, Bool.not_true, Bool.false_eq_true, if_false, hrd, h]] ; exact hsh
+              have s12 : ShapeEq fs1 fs' :=
+                ⟨fun i => (s2.dir i).trans (s1.dir i).symm, fun i => (s2.children i).trans (s1.children i).symm,
+                 fun i => (s2.sym i).trans (s1.sym i).symm, fun i => (s2.target i).trans (s1.target i).symm⟩
+              have hn := readDir_names_shape c s12 name es1 es hrd hes
+              have : e.name ∈ es1.map (·.name) := by rw [← hn]; exact List.mem_map_of_mem he
+              obtain ⟨e1, he1, hne⟩ := List.mem_map.mp this
+              rw [← hne]; exact h2 e1 he1
+            | _ =>
+              simp only [hrd, Prod.mk.injEq, true_and] at h
+              obtain ⟨rfl, rfl⟩ := h
+              refine ⟨by simp, fun _ es hes => ?_⟩
+              rw [hrd] at hes; cases hes
+          | err e => simp [hrd] at h
+          | nohandle =>
+            simp only [hrd, Prod.mk.injEq, true_and] at h
+            obtain ⟨rfl, rfl⟩ := h
+            refine ⟨by simp, fun _ es hes => ?_⟩
+            rw [hrd] at hes; cases hes
+        · have hd' : isDir = false := by simpa using hd
+          simp only [hd', Bool.not_false, if_true, Prod.mk.injEq, true_and] at h
+          obtain ⟨_, rfl⟩ := h
+          exact ⟨by simp, fun hcontra => by simp [hd'] at hcontra⟩
+
 end Apko.Accounts
